@@ -314,6 +314,34 @@ def r_shared_r7(ctx):
         getattr(_m, _f)(_Sub(ctx, "C04.R7"))
 
 
+def r8(ctx):
+    """hand-off to the application: a message that passed the duplicate tests sits in client.incoming_messages until the server
+    loop hands it to handler.handle_message and empties the queue.  Whatever the handler does - return or raise - the queue
+    must be emptied before the next datagram of that client is processed, or the same messages are handed over again."""
+    from engine.cfg import cfg_of
+    run = ctx.fn("server:UdpServerThread.run")
+    cfg = cfg_of(run)
+    hm = [c for c in walk_own(run.node) if isinstance(c, ast.Call) and isinstance(c.func, ast.Attribute) and c.func.attr == "handle_message"]
+    if not ctx.require("C04.R8", run, "handler.handle_message call in the server loop", len(hm), 1):
+        return
+    resets = [n for n in cfg.stmts((ast.Assign,)) if norm(n.ast.targets[0]).endswith(".incoming_messages") and norm(n.ast.value) in ("[]", "list()")]
+    if not ctx.require("C04.R8", run, "reset of client.incoming_messages in the server loop", len(resets), 1):
+        return
+    loops = [p for p in _parents(hm[0], run.node) if isinstance(p, ast.While)]
+    heads = [n for n in cfg.nodes if n.kind == "test" and loops and n.stmt is loops[0]]
+    ok = bool(heads)
+    C = cfg.node_of(hm[0])
+    for h in heads:
+        # every way from the hand-off (normal or exceptional) to the next datagram passes the reset
+        # (logging statements and loop bookkeeping are not assumed to raise, as in C10 / C11)
+        from .c10 import _log_ok
+        ok = ok and cfg.must_pass(C.id, h.id, {resets[0].id}, edge_ok=_log_ok)
+    ctx.check(ok, "C04.R8", run, "the delivered messages are removed from the queue on every way out of the hand-off, also when the handler raises",
+              "an exception from handle_message that skips `client.incoming_messages = []` leaves the messages queued: they are handed to the application again with every later datagram",
+              witness={"reset": norm(resets[0].ast)}, line=hm[0].lineno)
+
+
+EXPLANATION = EXPLANATION + ' (R8) every message handed to the application is removed from the hand-off queue on every way out of the hand-off, also when the handler raises (at most once to the application, not only into the queue).'
 EXPLANATION = EXPLANATION + ' (R6) datagram and message numbers reach the duplicate test as they were written: header and per-message framing agree between writer and reader (shared C09.R1, C09.R2). (R7) BitField.insert partitions the output of SeqNum.diff: diff is antisymmetric on the ring with range [-T, T] and the comparisons are defined through it (shared C08.R2, C08.R3).'
 
-RULES = [("C04.R1", r1), ("C04.R2", r2), ("C04.R3", r3), ("C04.R4", r4), ("C04.R5", r_enum), ("C04.R6", r_shared_r6), ("C04.R7", r_shared_r7)]
+RULES = [("C04.R1", r1), ("C04.R2", r2), ("C04.R3", r3), ("C04.R4", r4), ("C04.R5", r_enum), ("C04.R6", r_shared_r6), ("C04.R7", r_shared_r7), ("C04.R8", r8)]
